@@ -44,6 +44,9 @@ SITES = ["boot-failpoint", "boot-garbage", "gel-merge-candidates", "gel-apply-me
          "cache-invalidate", "store-batch", "store-all", "store-some", "sidecar"]
 
 
+LATE_OK = {"hybrid-rerank", "fusion", "mmr", "quality-trace", "cache-invalidate", "sidecar", "llm-adapter-build"}
+
+
 def site_cfgs(site, rng):
     """(config with the subsystem on [faulted run], baseline config) as override dicts."""
     from vlib.cfggen import gate_cfg, merge
@@ -145,9 +148,10 @@ def install(site, exc, hits, env, garbage=None):
             st.enter_context(patched(RW, "write_reflection_entries", boom))
         elif site == "reflect-telemetry":
             st.enter_context(patched(core, "log_t3_reflection", boom))
-        elif site == "llm-adapter-build":
+        elif site == "llm-adapter-build" and not getattr(env, "_c20_natural_llm", False):
             st.enter_context(patched(core, "build_llm_adapter", boom))
-        elif site == "llm-adapter-ci-provider":
+        elif site in ("llm-adapter-ci-provider", "llm-adapter-build"):
+            # the real construction fails by itself (CI refuses the provider / the fixture file is damaged)
             real = core.build_llm_adapter
 
             def counted(cfg):
@@ -310,7 +314,7 @@ def gen_case(rng, sites=None, exc_i=None, garbage=None):
         # a store fault is only telling when several approved deltas reach the store: the T4 filters stay wide open
         cfg["t4"].update({"churn_cap_edges": 64, "delta_norm_cap_l2": 100.0, "novelty_cap_per_node": 1.0})
         cfg["t4"].pop("cooldowns", None)
-    turns = gen_turns(rng, world, n=(3, 4) if any(x.startswith("boot") for x in sites) else (2, 3), agents=("A",), plans=False)
+    turns = gen_turns(rng, world, n=(3, 4) if any(x.startswith(("boot", "reflect-")) for x in sites) else (2, 3), agents=("A",), plans=False)
     for t in turns:
         t["plan"] = {"ops": [{"kind": "Speak"}, {"kind": "EditGraph"}], "deltas": [["node", f"n:{x}", "weight", rng.choice([0.1, -0.2, 0.3]), 1]
                                 # distinct targets (T4 merges repeated ones): a partially failing store needs three or more
@@ -319,7 +323,11 @@ def gen_case(rng, sites=None, exc_i=None, garbage=None):
                      "reflection": True}
     return {"world": world, "cfg": cfg, "turns": turns, "sites": list(sites), "exc": exc_i if exc_i is not None else rng.randrange(len(EXCS)),
             "garbage": (garbage[0] if garbage else rng.choice(GARBAGE)), "garbage_name": (garbage[1] if garbage else None), "seed": rng.randint(0, 10 ** 9), "t3_deny": t3_deny,
-            "exc_msg": rng.choice(["text", "text", "empty", "noargs", "multiline", "non-str"])}
+            "exc_msg": rng.choice(["text", "text", "empty", "noargs", "multiline", "non-str"]),
+            # the subsystem works for the first turn(s) and starts failing later (baseline: healthy, then switched off at the
+            # same turn); the caller keeps one ctx object per agent; what is wrong with the LLM fixture file
+            "late": (rng.random() < 0.35 and all(s_ in LATE_OK or s_.startswith(("gel-", "reflect-")) for s_ in sites)),
+            "reuse_ctx": rng.random() < 0.5, "fixture_damage": rng.choice(["nonexistent", "truncated-tail", "truncated-tail", "directory"])}
 
 
 @contextlib.contextmanager
@@ -343,9 +351,28 @@ def run(case, faulted, sess):
     bootstrap.reset_globals()
     rng = random.Random(case["seed"])
     cfg = copy.deepcopy(case["cfg"])
+    late = bool(case.get("late")) and len(case["turns"]) >= 2
+    late_base = {}
+    fx_dir = None
     for s in case["sites"]:
         on, base = site_cfgs(s, random.Random(f"{case['seed']}/{s}"))
-        cfg = merge(cfg, on if faulted else base)
+        if s == "llm-adapter-build" and case.get("fixture_damage", "nonexistent") != "nonexistent":
+            # a real fixture path that cannot be turned into an adapter: a file with sound first records and a line cut off
+            # in the middle, or a directory
+            import tempfile
+            fx_dir = tempfile.mkdtemp(prefix="c20fx_", dir="/var/tmp")
+            fx_path = os.path.join(fx_dir, "fixtures.jsonl")
+            if case["fixture_damage"] == "directory":
+                os.mkdir(fx_path)
+            else:
+                with open(fx_path, "w", encoding="utf-8") as f_:
+                    for j_ in range(3):
+                        f_.write('{"prompt_hash": "%064x", "completion": "{\\"plan\\": [], \\"rationale\\": \\"r\\"}"}\n' % j_)
+                    f_.write('{"prompt_hash": "%064x", "compl' % 9)
+            on = merge(on, {"t3": {"llm": {"fixtures": {"path": fx_path}}}})
+        cfg = merge(cfg, on if (faulted or late) else base)
+        if late:
+            late_base = merge(late_base, base)
     boot = any(s.startswith("boot") for s in case["sites"])
     world = copy.deepcopy(case["world"])
     if boot:
@@ -368,6 +395,14 @@ def run(case, faulted, sess):
             return exc_type(7, {"code": 1})
         return exc_type(msg)
     hits = {}
+    env._c20_natural_llm = fx_dir is not None
+    if any(s_ in ("reflect-compute", "reflect-write") for s_ in case["sites"]) and "reflect-telemetry" not in case["sites"]:
+        # reflection writes land in the index the retrieval stage reads (a healthy reflection before the failure leaves its
+        # entries there in both runs; a failing one must leave nothing)
+        env.state["memory_index"] = env.state["mem_index"]
+        wired = True
+    else:
+        wired = False
     with env:
         if boot:
             # the boot loader replaces state.graph; deliver preloaded GEL edges is not needed here
@@ -376,10 +411,10 @@ def run(case, faulted, sess):
         # plans that use deltas need the store double: store faults are installed per env
         stack = contextlib.ExitStack()
         with stack:
-            if faulted:
+            if faulted and not late:
                 for s in case["sites"]:
                     stack.enter_context(install(s, exc, hits, env))
-            else:
+            elif not faulted:
                 if "store-some" in case["sites"]:
                     # idle for exactly the failing deltas: the batch applies only the 2nd, 4th, ... approved delta
                     env.state["store"].apply_deltas = (lambda real: (lambda gid, deltas: real(gid, deltas) if (list(deltas) and isinstance(list(deltas)[0], dict)) else real(gid, list(deltas)[1::2])))(env.state["store"].apply_deltas)
@@ -388,14 +423,36 @@ def run(case, faulted, sess):
                     env.state["store"].apply_deltas = (lambda real: (lambda gid, deltas: real(gid, deltas) if (list(deltas) and isinstance(list(deltas)[0], dict)) else {"edits": 0, "clamps": 0}))(env.state["store"].apply_deltas)
             if case.get("t3_deny"):
                 stack.enter_context(_env_var("CLEMATIS_T3_DENY", "1"))  # the documented kill switch of the planning stage
-            for t in case["turns"]:
+            ctxs = {}
+            late_at = 1 + (case["seed"] % (len(case["turns"]) - 1)) if late else None
+            for ti_, t in enumerate(case["turns"]):
+                if late and ti_ == late_at:
+                    if faulted:
+                        for s in case["sites"]:
+                            stack.enter_context(install(s, exc, hits, env))
+                    else:
+                        _merge_into(env.cfg, late_base)  # the subsystem switched off from this turn on
                 if faulted and hasattr(env.state.get("store"), "_c20_reset"):
                     env.state["store"]._c20_reset()
-                env.run(t["agent"], t["text"], t["turn"], now_ms=t["now_ms"], plan=t.get("plan"))
+                r_ = env.run(t["agent"], t["text"], t["turn"], now_ms=t["now_ms"], plan=t.get("plan"), ctx_obj=ctxs.get(t["agent"]) if case.get("reuse_ctx") else None)
+                if case.get("reuse_ctx"):
+                    ctxs[t["agent"]] = r_["ctx"]
         logs = env.logs()
         canon = {k: env.canon(v) for k, v in logs.items() if k in CANON}
         # the snapshot field of apply.jsonl names the file; with boot garbage named state_A.json nothing changes there
-        return {"canon": canon, "results": list(env.results), "hits": hits}
+        if fx_dir:
+            import shutil
+            shutil.rmtree(fx_dir, ignore_errors=True)
+        return {"canon": canon, "results": list(env.results), "hits": hits, "lines": [r_.get("line") for r_ in env.results],
+                "reflection_index_is_retrieval_index": wired}
+
+
+def _merge_into(dst, over):
+    for k_, v_ in (over or {}).items():
+        if isinstance(v_, dict) and isinstance(dst.get(k_), dict):
+            _merge_into(dst[k_], v_)
+        else:
+            dst[k_] = copy.deepcopy(v_)
 
 
 def check_natural(case, sess: Session):
@@ -463,6 +520,16 @@ def check_case(case, sess: Session):
     sess.count("baseline_twins_compared")
     if "boot-garbage" in case["sites"] and case["garbage"] in PARTIAL:
         sess.count("partially_valid_snapshots_booted(turn completion only)")
+        return
+    if f.get("reflection_index_is_retrieval_index"):
+        sess.count("scenarios_where_reflection_writes_into_the_retrieval_index")
+    if case.get("late"):
+        sess.count("scenarios_with_a_subsystem_failing_from_a_later_turn_on")
+    if case.get("reuse_ctx"):
+        sess.count("scenarios_with_one_ctx_object_per_agent")
+    if f.get("lines") != b.get("lines"):
+        where = single or label
+        sess.violation(f"returned-line-differs-from-idle-baseline@{where}", tcase, {"faulted": [str(x)[:60] for x in f.get("lines", [])], "baseline": [str(x)[:60] for x in b.get("lines", [])], "raised": exc_name})
         return
     if f["canon"] != b["canon"]:
         from vlib.turn import _json_diff
@@ -539,6 +606,8 @@ def main(tier: str, seed: int):
     sess.require("baseline_twins_compared", 100)
     sess.require("scenarios_with_all_failpoints_hit", 80)
     sess.require("natural_boundary_scenarios", 40)
+    sess.require("scenarios_with_a_subsystem_failing_from_a_later_turn_on", 20)
+    sess.require("scenarios_with_one_ctx_object_per_agent", 50)
     for s in SITES:
         sess.require("failpoint_hits:" + s, 1)
     sess.finish()
